@@ -412,5 +412,3 @@ func writeEvidence(vdir, prop, tier string, seed int, spec CheckSpec, results []
 	data, _ := json.MarshalIndent(ev, "", " ")
 	os.WriteFile(filepath.Join(vdir, "evidence", prop+".json"), data, 0644)
 }
-
-
